@@ -593,7 +593,7 @@ def run_children(run, jobs_by_chunk, phase, tag, nproc):
 
     def reap(p, of):
         try:
-            _, err = p.communicate(timeout=600)
+            _, err = p.communicate(timeout=core.tscale(600))
         except subprocess.TimeoutExpired:
             p.kill()
             raise MachineryError("child process timed out (%s)" % of)
